@@ -46,7 +46,11 @@ def ops_strategy():
     # the peer's acknowledgement leaves out the packets in which the SUT raised a limit (they count as lost and the SUT owes a retransmission), and
     # the same packet goes on with a frame that relies on the raised limit: the limit was advertised, losing its packet does not take it back
     lossy = st.tuples(st.just("lossy_ack"), st.one_of(stream, reset, reset))
-    return st.lists(st.one_of(stream, stream, stream, reset, simple, fin0, follow, lossy), min_size=2, max_size=16)
+    # ... both on the same stream, one after the other
+    fin0_then = st.tuples(st.sampled_from(["p-bidi0", "p-bidi1", "p-uni0"]), st.sampled_from(["small", "half", "lim", "lim+1"]), st.sampled_from([1, 10]), st.booleans(), st.booleans()).map(
+        lambda t: ("seq", ("stream", t[0], "stream", "zero", 0, True), ("stream", t[0], "stream", t[1], t[2], t[3]) if not t[4] else ("reset", t[0], "stream", t[1]))
+    )
+    return st.lists(st.one_of(stream, stream, stream, reset, simple, fin0, follow, lossy, fin0_then), min_size=2, max_size=16)
 
 
 class Credit:
@@ -110,6 +114,7 @@ def run_history(ctx, case):
         hi = {}  # sid -> highest offset received so far (model)
         final = {}  # sid -> fixed final size
         done = set()  # streams whose receive side is complete (all bytes + fin, or reset)
+        inconsistent = set()
         have = {}  # sid -> set of received byte offsets (small histories only) - used for 'done'
         opened_by_sut = []
         broken_any = []
@@ -192,8 +197,8 @@ def run_history(ctx, case):
             broken = set()
             silent = False
             sut_initiated = (sid % 2 == 0) == sut_is_client
-            if sid in done:
-                silent = True  # the SUT may have discarded the stream: frames on it carry no obligation
+            if sid in inconsistent or (sid in done and sid not in tk.sut._streams):
+                silent = True  # the peer contradicted itself earlier on this stream, or the SUT has discarded it (both directions finished): no obligation
             if not sut_initiated and sid not in hi:
                 count = sid // 4 + 1
                 if count > (cr.streams_uni if sid % 4 in (2, 3) else cr.streams_bidi):
@@ -250,7 +255,7 @@ def run_history(ctx, case):
                 return
             # accepted: update the model
             if silent:
-                done.add(sid)  # inconsistent peer: no further obligations on this stream
+                inconsistent.add(sid)  # inconsistent peer: no further obligations on this stream
                 return
             hi[sid] = max(hi.get(sid, 0), end)
             if fin or is_reset:
@@ -264,7 +269,10 @@ def run_history(ctx, case):
                 if sid in final and len(s) >= final[sid] and all(i in s for i in range(final[sid])):
                     done.add(sid)
 
+        flat = []
         for op in case["ops"]:
+            flat.extend(op[1:] if op[0] == "seq" else [op])
+        for op in flat:
             if dead[0] or close_code() is not None:
                 break
             kind = op[0]
